@@ -859,7 +859,7 @@ class PathEnum:
 def rule_py_eof(out):
     rid = "PE1"
     out.rule(rid, "CodedInputStream: buffer reads are preceded by the refill test with at least the bytes consumed, _fill_buffer raises EOFError when it cannot "
-                  "provide min_count bytes, and every method that calls readinto on the underlying stream compares the count and can raise EOFError", 5)
+                  "provide min_count bytes, and every method that calls readinto on the underlying stream compares the count and can raise EOFError", 3)
     tree, rel = parse_py(out, "_binary.py")
     cls = classes(tree).get("CodedInputStream")
     if cls is None:
@@ -879,25 +879,7 @@ def rule_py_eof(out):
             out.check(has_raise and cmp_count, rid, "CodedInputStream.%s/short read raises" % mname, pos(rel, fn),
                       "the byte count returned by readinto is examined and a short read raises EOFError",
                       "this method reads from the underlying stream but cannot raise EOFError on a short read: a truncated payload is returned zero-padded")
-    # refill idiom before direct buffer reads
-    for mname in ("read", "read_byte", "read_unsigned_varint"):
-        fn = ms.get(mname)
-        if fn is None:
-            out.undecided(rid, "CodedInputStream." + mname, rel, "method not found")
-            continue
-        ok = False
-        for n in ast.walk(fn):
-            if isinstance(n, ast.If):
-                t = ast.unparse(n.test).replace(" ", "")
-                if t.startswith("self._last_read_count-self._offset<") and any("_fill_buffer" in ast.unparse(b) for b in n.body):
-                    need = t.split("<", 1)[1]
-                    fill_arg = None
-                    for b in ast.walk(n):
-                        if isinstance(b, ast.Call) and isinstance(b.func, ast.Attribute) and b.func.attr == "_fill_buffer" and b.args:
-                            fill_arg = ast.unparse(b.args[0]).replace(" ", "")
-                    ok = fill_arg == need
-        out.check(ok, rid, "CodedInputStream.%s/refill before read" % mname, pos(rel, fn), "`_last_read_count - _offset < n → _fill_buffer(n)` precedes the buffer access",
-                  "no refill test with matching byte count before the buffer is indexed: stale bytes beyond the data are decoded at end of input")
+    # (the refill test in front of every buffer read is rule PE2)
     fb = ms.get("_fill_buffer")
     if fb is not None:
         # every path that returns normally either was not asked for a minimum, or has established
@@ -905,22 +887,34 @@ def rule_py_eof(out):
         pe = PathEnum(tree)
         ok_paths = [p for p in pe.paths(fb.body) if p.outcome != "raise"]
         ok = bool(ok_paths) and not pe.overflow
-        def no_min(q):
-            return any((not val) and isinstance(t, ast.Compare) and len(t.ops) == 1 and "min_count" in ast.unparse(t) and "_last_read_count" not in ast.unparse(t)
-                       and isinstance(t.ops[0], (ast.Gt, ast.NotEq)) for t, val in q.lits)
+        # names that hold the same number as self._last_read_count (assigned into it)
+        counts = {"_last_read_count"}
+        for x in ast.walk(fb):
+            if isinstance(x, ast.Assign) and len(x.targets) == 1 and ast.unparse(x.targets[0]) == "self._last_read_count" and isinstance(x.value, ast.Name):
+                counts.add(x.value.id)
 
-        def enough(q):
-            return q.asserts_ge("_last_read_count", "min_count")
+        def lit_ok(t, val, env):
+            """the literal (t is val) implies: no minimum was asked for, or the count reaches it"""
+            if isinstance(t, ast.UnaryOp) and isinstance(t.op, ast.Not):
+                return lit_ok(t.operand, not val, env)
+            if isinstance(t, ast.BoolOp):
+                if isinstance(t.op, ast.And):
+                    return any(lit_ok(v, True, env) for v in t.values) if val else all(lit_ok(v, False, env) for v in t.values)
+                return all(lit_ok(v, True, env) for v in t.values) if val else any(lit_ok(v, False, env) for v in t.values)
+            if isinstance(t, ast.Compare) and len(t.ops) == 1:
+                q = PyPath([(t, val)], "fall", env)
+                txt = ast.unparse(t)
+                # min_count <= 0 known true / min_count > 0 known false
+                l, r, op = ast.unparse(t.left).strip(), ast.unparse(t.comparators[0]).strip(), t.ops[0]
+                if l == "min_count" and r == "0" and ((isinstance(op, (ast.Gt, ast.NotEq)) and not val) or (isinstance(op, (ast.LtE, ast.Eq)) and val)):
+                    return True
+                if r == "min_count" and l == "0" and ((isinstance(op, (ast.Lt, ast.NotEq)) and not val) or (isinstance(op, (ast.GtE, ast.Eq)) and val)):
+                    return True
+                return any(q.asserts_ge(cn, "min_count") for cn in counts) and "min_count" in txt
+            return False
 
         for p in ok_paths:
-            good = no_min(p) or enough(p)
-            if not good:
-                # not (A and B): one of them is false; fine when either way gives one of the two facts
-                for t, val in p.lits:
-                    if not val and isinstance(t, ast.BoolOp) and isinstance(t.op, ast.And):
-                        if all(no_min(PyPath([(v, False)], "fall", p.env)) or enough(PyPath([(v, False)], "fall", p.env)) for v in t.values):
-                            good = True
-            ok = ok and good
+            ok = ok and any(lit_ok(t, val, p.env) for t, val in p.lits)
         out.check(ok, rid, "CodedInputStream._fill_buffer/raises below min_count", pos(rel, fb), "raises EOFError when fewer than min_count bytes are available",
                   "_fill_buffer does not raise when it obtained fewer than min_count bytes")
 
@@ -1272,12 +1266,124 @@ def rule_ndjson_key_order(out):
     if n == 0:
         out.undecided(rid, "NDJsonProtocolWriter/json calls", rel, "no json.dump / json.loads found in the writer")
 
+
+# ----------------------------------------------------------------------------------
+# PE2: every element read of the input buffer happens behind a refill test of its own. In each method of
+# CodedInputStream, an indexed read `buf[off]` (1 byte) or `fmt.unpack_from(buf, off)` (fmt.size bytes) — buf being
+# self._buffer / self._view or a local alias — is preceded, in its own block or an enclosing one but NOT outside the
+# innermost loop around it, by `if available < n: self._fill_buffer(n)` (written inline, through a helper method with
+# that body, or as an unconditional _fill_buffer(n)). A test hoisted out of the decoding loop covers only the first
+# byte: the continuation bytes of a varint cut by the end of the data are read from stale buffer contents.
+# ----------------------------------------------------------------------------------
+
+def rule_py_refill_scope(out):
+    rid = "PE2"
+    out.rule(rid, "CodedInputStream: each indexed buffer read / unpack_from has a refill test for at least the bytes it consumes before it in the same loop iteration "
+                  "(inline `available < n → _fill_buffer(n)`, a helper with that body, or an unconditional _fill_buffer(n))", 3)
+    tree, rel = parse_py(out, "_binary.py")
+    cls = classes(tree).get("CodedInputStream")
+    if cls is None:
+        out.undecided(rid, "CodedInputStream", rel, "class not found")
+        return
+    ms = methods(cls)
+
+    def nospace(n):
+        return ast.unparse(n).replace(" ", "")
+
+    # helpers: `def h(self): return self._last_read_count - self._offset`  /  `def g(self, n): if avail < n: self._fill_buffer(n)`
+    avail_helpers = set()
+    for name, fn in ms.items():
+        body = [b for b in fn.body if not (isinstance(b, ast.Expr) and isinstance(b.value, ast.Constant))]
+        if len(body) == 1 and isinstance(body[0], ast.Return) and body[0].value is not None and nospace(body[0].value) == "self._last_read_count-self._offset":
+            avail_helpers.add(name)
+
+    def is_avail(e, offs):
+        t = nospace(e)
+        if t == "self._last_read_count-self._offset":
+            return True
+        if isinstance(e, ast.BinOp) and isinstance(e.op, ast.Sub) and nospace(e.left) == "self._last_read_count" and isinstance(e.right, ast.Name) and e.right.id in offs:
+            return True
+        if isinstance(e, ast.Call) and isinstance(e.func, ast.Attribute) and isinstance(e.func.value, ast.Name) and e.func.value.id == "self" and e.func.attr in avail_helpers and not e.args:
+            return True
+        return False
+
+    def guard_amount(st, offs, depth=0):
+        """the byte count a statement guarantees to be buffered afterwards (source text), or None"""
+        if isinstance(st, ast.If) and isinstance(st.test, ast.Compare) and len(st.test.ops) == 1:
+            l, op, r = st.test.left, st.test.ops[0], st.test.comparators[0]
+            need = None
+            if isinstance(op, ast.Lt) and is_avail(l, offs):
+                need = r
+            elif isinstance(op, ast.Gt) and is_avail(r, offs):
+                need = l
+            if need is not None:
+                for b in ast.walk(ast.Module(body=st.body, type_ignores=[])):
+                    if isinstance(b, ast.Call) and isinstance(b.func, ast.Attribute) and b.func.attr == "_fill_buffer" and b.args and nospace(b.args[0]) == nospace(need):
+                        return nospace(need)
+        if isinstance(st, ast.Expr) and isinstance(st.value, ast.Call) and isinstance(st.value.func, ast.Attribute) and isinstance(st.value.func.value, ast.Name) and st.value.func.value.id == "self":
+            call = st.value
+            if call.func.attr == "_fill_buffer" and call.args:
+                return nospace(call.args[0])
+            h = ms.get(call.func.attr)
+            if h is not None and depth < 2 and len(h.args.args) == 2 and len(call.args) == 1:
+                prm = h.args.args[1].arg
+                for hb in h.body:
+                    g = guard_amount(hb, set(), depth + 1)
+                    if g == prm:
+                        return nospace(call.args[0])
+        return None
+
+    n_reads = 0
+    for mname, fn in ms.items():
+        if mname in ("__init__", "close", "_fill_buffer"):
+            continue
+        parents = {}
+        for x in ast.walk(fn):
+            for ch in ast.iter_child_nodes(x):
+                parents[ch] = x
+        bufs, offs = {"self._buffer", "self._view"}, set()
+        for x in ast.walk(fn):
+            if isinstance(x, ast.Assign) and len(x.targets) == 1 and isinstance(x.targets[0], ast.Name):
+                v = nospace(x.value)
+                if v in ("self._buffer", "self._view", "memoryview(self._buffer)"):
+                    bufs.add(x.targets[0].id)
+                if v == "self._offset":
+                    offs.add(x.targets[0].id)
+        reads = []  # (node, needed text)
+        for x in ast.walk(fn):
+            if isinstance(x, ast.Subscript) and isinstance(x.ctx, ast.Load) and nospace(x.value) in bufs and not isinstance(x.slice, ast.Slice):
+                reads.append((x, "1"))
+            if isinstance(x, ast.Call) and isinstance(x.func, ast.Attribute) and x.func.attr == "unpack_from" and x.args and nospace(x.args[0]) in bufs:
+                reads.append((x, nospace(x.func.value) + ".size"))
+        for node, need in reads:
+            n_reads += 1
+            # walk up to the innermost loop (or the function), looking at earlier siblings
+            ok = False
+            child = node
+            cur = parents.get(node)
+            while cur is not None and not ok:
+                for field in ("body", "orelse", "finalbody"):
+                    blk = getattr(cur, field, None)
+                    if isinstance(blk, list) and child in blk:
+                        for sib in blk[:blk.index(child)]:
+                            g = guard_amount(sib, offs)
+                            if g is not None and (g == need or (g.isdigit() and need.isdigit() and int(g) >= int(need))):
+                                ok = True
+                if isinstance(cur, (ast.While, ast.For)) or cur is fn:
+                    break
+                child, cur = cur, parents.get(cur)
+            out.check(ok, rid, "CodedInputStream.%s/%s" % (mname, nospace(node)[:40]), pos(rel, node), "refill test for %s byte(s) precedes the read in the same iteration" % need,
+                      "no refill test for %s byte(s) stands before this buffer read inside its own loop iteration (a test in front of the loop covers the first byte only): at the end of a "
+                      "truncated stream the read takes stale bytes from the buffer instead of raising EOFError" % need)
+    if n_reads == 0:
+        out.undecided(rid, "CodedInputStream/buffer reads", rel, "no indexed buffer read found")
+
 RULES = {
     "C02": [rule_json_kinds, rule_ndjson_sentinel, rule_union_dispatch],
     "C03": [rule_link, rule_py_wire_table, rule_py_capacity, rule_py_no_alias],
     "C08": [rule_link],
     "C15": [rule_py_headers, rule_ndjson_key_order],
-    "C16": [rule_py_eof],
+    "C16": [rule_py_eof, rule_py_refill_scope],
     "C17": [rule_py_stream_blocks],
     "C04": [rule_py_headers, rule_py_write_order, rule_ndjson_key_order],
     "C01": [rule_py_wire_table, rule_py_stream_blocks, rule_py_write_order],
